@@ -1,4 +1,405 @@
+//! C06 - frontend-side parsers accept only the matching reply and survive hostile peers.
+//!
+//! reply : for every request type of Frontend / Backend proxy / GpuBackend the raw peer answers
+//!         with the correct reply mutated in one dimension (code, REPLY flag, other flag bits,
+//!         version, size field with framing-consistent body, body validity, 0..=3 descriptors)
+//!         and then ends the stream. Expected: Err for every mutation that breaks a conjunct
+//!         named in the statement; never a panic; an Ok value must be bytes the peer sent.
+//! fesrv : hostile byte streams (fuzz.rs) and well-framed requests with 0..=3 descriptors to the
+//!         real FrontendReqHandler: no panic, handler only for well-formed requests with exactly
+//!         the prescribed descriptors.
+
+use crate::c01::{self, make_reply, BeOp, FeCfg};
+use crate::fuzz;
+use crate::ops::{self, FeOp, Lent, ReplyKind};
+use crate::rec::{FeOut, RecFrontend};
+use crate::util;
 use crate::Cfg;
-pub fn run(_cfg: &Cfg) {
-    common::report::inconclusive("not implemented");
+use common::spec::{self, gpu, F_NEED_REPLY, F_REPLY, F_VERSION1};
+use common::sys;
+use common::{jo, report, Rng, J};
+use std::os::unix::io::{AsRawFd, RawFd};
+use std::sync::{Arc, Mutex};
+
+use vhost::vhost_user::gpu_message::*;
+use vhost::vhost_user::message::VhostUserU64;
+use vhost::vhost_user::{Backend, FrontendReqHandler, GpuBackend};
+
+#[derive(Clone, Debug)]
+struct Mutation {
+    name: String,
+    code: u32,
+    flags: u32,
+    /// size field; the peer sends exactly this many payload bytes
+    payload: Vec<u8>,
+    nfds: usize,
+    /// true: the mutation breaks a conjunct named in the statement -> the call must fail
+    must_fail: bool,
+}
+
+fn mutations(code: u32, max_code: u32, base_flags: u32, good: &[u8], good_fds: usize, fd_optional: bool, rng: &mut Rng, invalid_bodies: Vec<(String, Vec<u8>)>) -> Vec<Mutation> {
+    let mut v = Vec::new();
+    let m = |name: &str, c: u32, fl: u32, p: &[u8], n: usize, mf: bool| Mutation { name: name.to_string(), code: c, flags: fl, payload: p.to_vec(), nfds: n, must_fail: mf };
+    v.push(m("unchanged", code, base_flags, good, good_fds, false));
+    // request code: every other valid code and some invalid ones
+    for c in 0..=max_code + 2 {
+        if c != code {
+            v.push(m(&format!("code={c}"), c, base_flags, good, good_fds, true));
+        }
+    }
+    v.push(m("code=random", rng.next() as u32 | 0x100, base_flags, good, good_fds, true));
+    // REPLY flag cleared
+    v.push(m("reply-flag-cleared", code, base_flags & !F_REPLY, good, good_fds, true));
+    // NEED_REPLY on a reply: left open by the statement
+    v.push(m("need-reply-set", code, base_flags | F_NEED_REPLY, good, good_fds, false));
+    // version / reserved bits: judged for panics and fabricated values only
+    for ver in [0u32, 2, 3] {
+        v.push(m(&format!("version={ver}"), code, (base_flags & !3) | (ver & base_flags.min(3)), good, good_fds, false));
+    }
+    for bit in 4..32 {
+        v.push(m(&format!("flag-bit-{bit}"), code, base_flags | 1 << bit, good, good_fds, false));
+    }
+    // size field, framing-consistent
+    if !good.is_empty() {
+        v.push(m("size-1", code, base_flags, &good[..good.len() - 1], good_fds, true));
+        v.push(m("size=0", code, base_flags, &[], good_fds, true));
+        v.push(m("size/2", code, base_flags, &good[..good.len() / 2], good_fds, good.len() / 2 != good.len()));
+    }
+    let mut longer = good.to_vec();
+    longer.extend_from_slice(&rng.bytes(8));
+    v.push(m("size+8", code, base_flags, &longer, good_fds, false)); // tail left unread: observed only
+    // descriptors 0..=3
+    for n in 0..=3usize {
+        if n != good_fds {
+            let breaks = if fd_optional { false } else { true };
+            v.push(m(&format!("fds={n}"), code, base_flags, good, n, breaks));
+        }
+    }
+    for (name, body) in invalid_bodies {
+        v.push(m(&format!("body:{name}"), code, base_flags, &body, good_fds, true));
+    }
+    v
+}
+
+fn send_reply(peer_fd: RawFd, mu: &Mutation, gpu_hdr: bool) -> Vec<std::fs::File> {
+    let _ = gpu_hdr;
+    let files: Vec<std::fs::File> = (0..mu.nfds).map(|_| sys::memfd("c06", 4096)).collect();
+    let fds: Vec<RawFd> = files.iter().map(|f| f.as_raw_fd()).collect();
+    let _ = sys::send_all(peer_fd, &spec::msg(mu.code, mu.flags, &mu.payload), &fds);
+    unsafe { libc::shutdown(peer_fd, libc::SHUT_WR) };
+    files
+}
+
+fn judge(cfg: &Cfg, who: &str, what: &str, mu: &Mutation, ok: bool, value_ok: bool, shown: String, panic: Option<util::PanicRec>, case: &str) {
+    report::eval(1);
+    report::count(&format!("{who}.replies"), 1);
+    report::distinct_str(&format!("{who}:{what}:{}", mu.name));
+    let d = || jo! {"endpoint" => who, "request" => what, "mutation" => mu.name.as_str(), "reply_code" => mu.code, "reply_flags" => J::x64(mu.flags as u64), "reply_size" => mu.payload.len(), "reply_fds" => mu.nfds, "call_result" => shown.as_str()};
+    if let Some(p) = panic {
+        report::violation(&format!("C06:{who}:{what}:panic"), jo! {"mutation" => mu.name.as_str(), "panic" => p.msg, "at" => p.location}, cfg.replay(case));
+        return;
+    }
+    if mu.must_fail && ok {
+        let class = mu.name.split(['=', ':']).next().unwrap_or("?").to_string();
+        report::violation(&format!("C06:{who}:{what}:accepted:{class}"), d(), cfg.replay(case));
+    } else if ok && !value_ok {
+        report::violation(&format!("C06:{who}:{what}:fabricated-value"), d(), cfg.replay(case));
+    } else if !mu.must_fail && mu.name != "unchanged" {
+        report::observe(&format!("{who}:open-mutation:{}:{}", mu.name.split(['=', '-']).next().unwrap_or("?"), if ok { "Ok" } else { "Err" }), J::Null);
+    }
+    if mu.name == "unchanged" && !ok {
+        report::violation(&format!("C06:{who}:{what}:correct-reply-rejected"), d(), cfg.replay(case));
+    }
+}
+
+fn frontend_replies(cfg: &Cfg, rng: &mut Rng) {
+    let mut vrng = Rng::new(0xc06);
+    for kind in 0..ops::N_OP_KINDS {
+        if !cfg.mine(kind as u64) {
+            continue;
+        }
+        let op = loop {
+            let o = ops::rand_op(&mut vrng, 256, Some(kind));
+            if !o.locally_invalid(256) {
+                break o;
+            }
+        };
+        if matches!(op, FeOp::SetFeatures(_) | FeOp::SetProtocolFeatures(_)) {
+            continue;
+        }
+        let k = op.reply_kind(true);
+        if k == ReplyKind::Nothing {
+            continue;
+        }
+        // the correct reply for this call (fixed values so that the case id is stable)
+        let mut r0 = Rng::new(kind as u64 + 11);
+        let rep = make_reply(&op, k, &mut r0);
+        let good: Vec<u8> = if k == ReplyKind::Ack { spec::p_u64(0) } else if matches!(op, FeOp::CheckDeviceState) { spec::p_u64(0) } else { rep.payload.clone() };
+        let good_fds = rep.file.is_some() as usize;
+        let mut invalid: Vec<(String, Vec<u8>)> = Vec::new();
+        match (&op, k) {
+            (_, ReplyKind::Ack) => {
+                invalid.push(("status=1".into(), spec::p_u64(1)));
+                invalid.push(("status=max".into(), spec::p_u64(u64::MAX)));
+            }
+            (FeOp::CheckDeviceState, _) => invalid.push(("status=1".into(), spec::p_u64(1))),
+            (FeOp::GetConfig { offset, size, flags, .. }, _) => {
+                let data = vec![0x11u8; *size as usize];
+                invalid.push(("other-offset".into(), spec::p_config(offset ^ 1, *size, *flags, &data)));
+                invalid.push(("undefined-flags".into(), spec::p_config(*offset, *size, 0x10, &data)));
+                invalid.push(("zero-size".into(), spec::p_config(*offset, 0, *flags, &[])));
+                if *size > 1 {
+                    invalid.push(("smaller-size".into(), spec::p_config(*offset, size - 1, *flags, &data[1..])));
+                }
+            }
+            (FeOp::GetInflightFd(..), _) => {
+                invalid.push(("zero-queues".into(), spec::p_inflight(1, 0, 0, 4)));
+                invalid.push(("zero-queue-size".into(), spec::p_inflight(1, 0, 4, 0)));
+            }
+            (FeOp::SetDeviceStateFd(..), _) => {
+                invalid.push(("error-status".into(), spec::p_u64(0x101)));
+                invalid.push(("status=1".into(), spec::p_u64(1)));
+            }
+            (FeOp::SetLogBase(..), _) => {
+                invalid.push(("zero-size".into(), spec::p_log(0, 0)));
+                invalid.push(("wrap".into(), spec::p_log(2, u64::MAX)));
+            }
+            _ => {}
+        }
+        let fd_optional = k == ReplyKind::U64OptFd;
+        let muts = mutations(op.code(), spec::fe::MAX_CODE, F_VERSION1 | F_REPLY, &good, good_fds, fd_optional, rng, invalid);
+        for mu in muts {
+            let c = FeCfg { need_reply: true, reply_ack: true, log_shmfd: true };
+            let (mut f, peer) = c01::setup_frontend(c, 256);
+            let files = send_reply(peer.as_raw_fd(), &mu, false);
+            let mut lent = Lent::default();
+            let res = util::catch(|| op.exec(&mut f, &mut lent));
+            let (ok, value_ok, shown, panic) = match res {
+                Err(p) => (false, true, String::new(), Some(p)),
+                Ok(o) => {
+                    // an Ok value must consist of bytes the peer sent as this reply's payload
+                    let value_ok = !o.ok || {
+                        let vals_ok = o.vals.iter().all(|v| {
+                            let b8 = v.to_ne_bytes();
+                            let b4 = (*v as u32).to_ne_bytes();
+                            let b2 = (*v as u16).to_ne_bytes();
+                            *v == 0 || mu.payload.windows(8).any(|w| w == b8) || (*v <= u32::MAX as u64 && mu.payload.windows(4).any(|w| w == b4)) || (*v <= 0xffff && mu.payload.windows(2).any(|w| w == b2))
+                        });
+                        let bytes_ok = o.bytes.is_empty() || mu.payload.windows(o.bytes.len().max(1)).any(|w| w == &o.bytes[..]);
+                        let file_ok = o.file.as_ref().is_none_or(|f| files.iter().any(|s| sys::ident(s.as_raw_fd()) == sys::ident(f.as_raw_fd())));
+                        vals_ok && bytes_ok && file_ok
+                    };
+                    (o.ok, value_ok, format!("{:?}", o.j().to_string().chars().take(300).collect::<String>()), None)
+                }
+            };
+            // SET_DEVICE_STATE_FD: descriptor presence is tied to the status value
+            let mut mu2 = mu.clone();
+            if fd_optional && mu.name.starts_with("fds=") {
+                mu2.must_fail = true; // value 0 requires exactly one descriptor, 0x100 none
+            }
+            judge(cfg, "frontend", op.name(), &mu2, ok, value_ok, shown, panic, &format!("fe:{kind}"));
+        }
+        report::sample(&format!("fe.{}", op.name()), jo! {"endpoint" => "frontend", "request" => op.j(), "correct_reply_payload" => J::hex(&good), "correct_reply_fds" => good_fds});
+    }
+}
+
+fn proxy_replies(cfg: &Cfg, rng: &mut Rng) {
+    let mut vrng = Rng::new(0xc06b);
+    for k in 0..5u64 {
+        if !cfg.mine(100 + k) {
+            continue;
+        }
+        let op: BeOp = c01::rand_beop(&mut vrng, k);
+        let invalid = vec![("status=1".to_string(), spec::p_u64(1)), ("status=max".to_string(), spec::p_u64(u64::MAX))];
+        for mu in mutations(op.code(), spec::be::MAX_CODE, F_VERSION1 | F_REPLY, &spec::p_u64(0), 0, false, rng, invalid) {
+            let (a, peer) = sys::pair();
+            let b = Backend::from_stream(a);
+            b.set_reply_ack_flag(true);
+            b.set_shared_object_flag(true);
+            b.set_shmem_flag(true);
+            let _files = send_reply(peer.as_raw_fd(), &mu, false);
+            let file = sys::memfd("c06", 4096);
+            let res = util::catch(|| op.exec(&b, &file));
+            let (ok, shown, panic) = match res {
+                Err(p) => (false, String::new(), Some(p)),
+                Ok(r) => (r.is_ok(), format!("{r:?}"), None),
+            };
+            let value_ok = !ok || shown == "Ok(0)";
+            judge(cfg, "backend-proxy", op.name(), &mu, ok, value_ok, shown, panic, &format!("be:{k}"));
+        }
+    }
+    // GPU proxy: the four requests that read a reply
+    for (gi, code) in [gpu::GET_PROTOCOL_FEATURES, gpu::GET_DISPLAY_INFO, gpu::GET_EDID, gpu::DMABUF_UPDATE].iter().enumerate() {
+        if !cfg.mine(200 + gi as u64) {
+            continue;
+        }
+        let good: Vec<u8> = match *code {
+            gpu::GET_PROTOCOL_FEATURES => spec::p_u64(0x1234_5678_9abc_def0),
+            gpu::GET_DISPLAY_INFO => (0..gpu::DISPLAY_INFO_SIZE).map(|i| (i * 7 + 1) as u8).collect(),
+            gpu::GET_EDID => (0..gpu::EDID_RESP_SIZE).map(|i| (i * 13 + 5) as u8).collect(),
+            _ => vec![],
+        };
+        let mut muts = mutations(*code, gpu::MAX_CODE, gpu::F_REPLY, &good, 0, false, rng, vec![]);
+        // GPU flags word has no version field: any extra bit is an invalid header
+        for m in muts.iter_mut() {
+            if m.name.starts_with("version") {
+                m.flags = gpu::F_REPLY | 1;
+            }
+        }
+        for mu in muts {
+            let (a, peer) = sys::pair();
+            let g = GpuBackend::from_stream(a);
+            let _files = send_reply(peer.as_raw_fd(), &mu, true);
+            let code = *code;
+            let res = util::catch(|| -> std::io::Result<Vec<u8>> {
+                use vm_memory::ByteValued;
+                match code {
+                    gpu::GET_PROTOCOL_FEATURES => g.get_protocol_features().map(|v: VhostUserU64| v.value.to_ne_bytes().to_vec()),
+                    gpu::GET_DISPLAY_INFO => g.get_display_info().map(|v| v.as_slice().to_vec()),
+                    gpu::GET_EDID => g.get_edid(&VhostUserGpuEdidRequest { scanout_id: 1 }).map(|v| v.as_slice().to_vec()),
+                    _ => g.update_dmabuf_scanout(&VhostUserGpuUpdate::default()).map(|_| vec![]),
+                }
+            });
+            let (ok, value_ok, shown, panic) = match res {
+                Err(p) => (false, true, String::new(), Some(p)),
+                Ok(r) => {
+                    let ok = r.is_ok();
+                    let value_ok = r.as_ref().map(|b| mu.payload.len() >= b.len() && &mu.payload[..b.len()] == &b[..]).unwrap_or(true);
+                    (ok, value_ok, format!("{:?}", r.map(|b| b.len())), None)
+                }
+            };
+            judge(cfg, "gpu-proxy", &format!("gpu-request-{code}"), &mu, ok, value_ok, shown, panic, &format!("gpu:{gi}"));
+        }
+    }
+}
+
+fn fesrv_structured(cfg: &Cfg, rng: &mut Rng) {
+    // well-framed requests with 0..=3 descriptors: handler invoked iff exactly the prescribed count
+    for k in 0..6u64 {
+        for nfds in 0..=3usize {
+            for reply_ack in [false, true] {
+                let h = Arc::new(Mutex::new(RecFrontend::default()));
+                h.lock().unwrap().out = Some(FeOut::Val(0));
+                let mut srv = FrontendReqHandler::new(h.clone()).expect("FrontendReqHandler");
+                srv.set_reply_ack_flag(reply_ack);
+                let peer_fd = unsafe { libc::dup(srv.get_tx_raw_fd()) };
+                let (code, body, want, name) = if k == 5 {
+                    (spec::be::CONFIG_CHANGE_MSG, vec![], 0usize, "handle_config_change".to_string())
+                } else {
+                    let op = c01::rand_beop(rng, k);
+                    let (b, n) = op.wire();
+                    (op.code(), b, n, op.name().to_string())
+                };
+                let files: Vec<std::fs::File> = (0..nfds).map(|_| sys::memfd("c06", 4096)).collect();
+                let fds: Vec<RawFd> = files.iter().map(|f| f.as_raw_fd()).collect();
+                sys::send_all(peer_fd, &spec::msg(code, F_VERSION1 | F_NEED_REPLY, &body), &fds).expect("send");
+                let res = util::catch(|| srv.handle_request());
+                report::eval(1);
+                report::count("fesrv.structured", 1);
+                report::distinct_str(&format!("fesrv:{name}:{nfds}:{reply_ack}"));
+                let calls = h.lock().unwrap().log.len();
+                let should = nfds == want;
+                match res {
+                    Err(p) => report::violation(&format!("C06:fesrv:{name}:panic"), jo! {"fds_attached" => nfds, "panic" => p.msg, "at" => p.location}, cfg.replay("fesrv")),
+                    Ok(r) => {
+                        if (calls == 1) != should || (should && r.is_err()) || (!should && r.is_ok()) {
+                            report::violation(
+                                &format!("C06:fesrv:{name}:{}", if should { "well-formed-request-not-dispatched" } else { "dispatched-with-wrong-descriptor-count" }),
+                                jo! {"request" => name.as_str(), "fds_attached" => nfds, "fds_prescribed" => want, "handler_invocations" => calls, "result" => format!("{r:?}")},
+                                cfg.replay("fesrv"),
+                            );
+                        }
+                    }
+                }
+                sys::close(peer_fd);
+            }
+        }
+    }
+}
+
+fn fesrv_stream(cfg: &Cfg, rng: &mut Rng, case: &str) {
+    let h = Arc::new(Mutex::new(RecFrontend::default()));
+    h.lock().unwrap().out = Some(match rng.below(3) {
+        0 => FeOut::Val(0),
+        1 => FeOut::Errno(rng.range(1, 133) as i32),
+        _ => FeOut::Other,
+    });
+    let mut srv = FrontendReqHandler::new(h.clone()).expect("FrontendReqHandler");
+    srv.set_reply_ack_flag(rng.chance(1, 2));
+    let peer_fd = unsafe { libc::dup(srv.get_tx_raw_fd()) };
+    let stream = fuzz::gen_frontend_req_stream(rng);
+    let sent = fuzz::send_stream(peer_fd, &stream);
+    let mut results = Vec::new();
+    for _ in 0..64 {
+        match util::catch(|| srv.handle_request()) {
+            Ok(Ok(v)) => results.push(format!("Ok({v})")),
+            Ok(Err(e)) => {
+                let s = format!("{e:?}");
+                let end = s.contains("Disconnected") || s.contains("PartialMessage") || s.contains("SocketBroken");
+                results.push(s);
+                if end {
+                    break;
+                }
+            }
+            Err(p) => {
+                report::violation(&format!("C06:fesrv-stream:panic:{}", util::loc_file(&p.location)), jo! {"stream" => stream.j(), "panic" => p.msg, "at" => p.location}, cfg.replay(case));
+                break;
+            }
+        }
+    }
+    report::eval(1);
+    report::count("fesrv.streams", 1);
+    report::count("fesrv.messages", stream.desc.len() as u64);
+    report::distinct(report::hash_str(&format!("fesrv{:?}", stream.desc)));
+    let g = h.lock().unwrap();
+    report::count("fesrv.handler_invocations", g.log.len() as u64);
+    if let Some(bad) = g.invalid.first() {
+        report::violation(&format!("C06:fesrv-stream:unvalidated-arguments:{}", bad.split(':').next().unwrap_or("?")), jo! {"stream" => stream.j(), "invalid_invocation" => bad.as_str(), "results" => results.clone()}, cfg.replay(case));
+    }
+    report::sample(&format!("fesrv.s{}", stream.desc.len()), jo! {"endpoint" => "frontend-req-server", "stream" => stream.j(), "results" => results});
+    drop(g);
+    drop(sent);
+    sys::close(peer_fd);
+}
+
+pub fn run(cfg: &Cfg) {
+    report::assume("conjuncts judged: REPLY flag, request code, body validity, descriptor presence exactly when defined; NEED_REPLY on a reply, version/reserved bits and a larger size field with consistent trailing bytes are observed, not judged");
+    let mut rng = Rng::new(cfg.seed.wrapping_mul(0xc06).wrapping_add(cfg.shard.wrapping_mul(104729)));
+    let only = cfg.only.clone().unwrap_or_default();
+    if let Some(st) = only.strip_prefix("rng:").and_then(|s| s.parse::<u64>().ok()) {
+        let mut r = common::Rng(st);
+        fesrv_stream(cfg, &mut r, &only);
+        return;
+    }
+    let part = only.split(':').next().unwrap_or("").to_string();
+    let mut c = cfg.clone();
+    if let Some((p, idx)) = only.split_once(':') {
+        if let Ok(i) = idx.parse::<u64>() {
+            c.only = None;
+            c.nshards = u64::MAX;
+            c.shard = match p {
+                "be" => 100 + i,
+                "gpu" => 200 + i,
+                _ => i,
+            };
+        }
+    }
+    if part.is_empty() || part == "all" || part == "fe" {
+        frontend_replies(&c, &mut rng);
+    }
+    if part.is_empty() || part == "all" || part == "be" || part == "gpu" {
+        proxy_replies(&c, &mut rng);
+    }
+    if (part.is_empty() && cfg.shard == 0) || part == "all" || part == "fesrv" {
+        fesrv_structured(cfg, &mut rng);
+    }
+    if part.is_empty() || part == "all" {
+        for _ in 0..cfg.pick(3000, 40000) {
+            let case = format!("rng:{}", rng.0);
+            fesrv_stream(cfg, &mut rng, &case);
+            if report::violations_so_far() > 20 {
+                break;
+            }
+        }
+    }
 }
